@@ -236,6 +236,7 @@ pub mod merge_channel {
 
 /// C19: a real `ClusterWorker::work()` fed by a real merge channel (no network).
 pub mod cluster_worker {
+    pub use crate::cluster::control_connection::events_verif::{EventsFeeder, EventsRig};
     pub use crate::cluster::worker_verif::{
         NodeView, PeerSpec, ProducerRig, PublishedViews, TakenUpdate, WorkerRig,
         use_keyspace_result_labels,
